@@ -279,6 +279,30 @@ def rhs_types(s):
     return S.term_type_vars(s)
 
 
+def self_occurrence_types(name, rhs):
+    """the distinct types at which the constant `name` occurs in rhs, in order of first occurrence (left to right)"""
+    out, stack = [], [rhs]
+    while stack:
+        x = stack.pop()
+        k = x[0]
+        if k == 'comb':
+            stack.append(x[2])
+            stack.append(x[1])
+        elif k == 'abs':
+            stack.append(x[3])
+        elif k == 'const' and x[1] == name and x[2] not in out:
+            out.append(x[2])
+    return out
+
+
+def definition_rhs(prop):
+    body, _ = strip_foralls(prop)
+    h, args = S.strip_comb(body)
+    if h[0] == 'const' and h[1] == 'equals' and len(args) == 2:
+        return args[1]
+    return None
+
+
 def definition_problems(sig_before, name, T, prop):
     """Side conditions of a conservative constant definition  c x1 .. xn = t.  -> list of (key, text)"""
     out = []
@@ -306,21 +330,11 @@ def definition_problems(sig_before, name, T, prop):
     if tv_r:
         out.append(('def:rhs-type-variable-not-in-constant-type', "right side has type variable %s, constant :: %s" % (
             S.ty_str(tv_r[0]), S.ty_str(T))))
-    stack, seen = [rhs], set()
-    while stack:
-        x = stack.pop()
-        k = x[0]
-        if k == 'comb':
-            stack.append(x[1])
-            stack.append(x[2])
-        elif k == 'abs':
-            stack.append(x[3])
-        elif k == 'const' and x[1] == name and x not in seen:
-            seen.add(x)
-            if overlap(x[2], T):
-                out.append(('def:self-reference-accepted', 'right side mentions %s at %s (defined at %s)' % (
-                    name, S.ty_str(x[2]), S.ty_str(T))))
-                break
+    # EVERY occurrence of the name on the right side is judged (an overloaded constant may occur at several types)
+    bad = [U for U in self_occurrence_types(name, rhs) if overlap(U, T)]
+    if bad:
+        out.append(('def:self-reference-accepted', 'right side mentions %s at %s (defined at %s)' % (
+            name, ', '.join(S.ty_str(U) for U in bad), S.ty_str(T))))
     c = sig_before.consts.get(name)
     if c is not None:
         if not c['overloaded']:
